@@ -138,9 +138,19 @@ def _find_slice_overlap(
             parent_stop = None
 
     if ref_slice.step < 0:
+        # the block runs backwards: position r of the interval is child index (length - 1 - r),
+        # the positions in the output are unchanged
+        length = stop_ind - start_ind
+        new_start = length - 1 - parent_start
+        new_step = -slice_in.step
+        new_stop = new_start + (child_stop - child_start)*new_step
+        if new_step > 0:
+            new_stop = min(new_stop, length)
+        elif new_stop < 0:
+            new_stop = None
         # noinspection PyTypeChecker
-        return _reverse_slice(slice(parent_start, parent_stop, slice_in.step)), \
-               _reverse_slice(slice(child_start, child_stop, 1))
+        return slice(new_start, new_stop, new_step), \
+               slice(child_start, child_stop, 1)
     else:
         # noinspection PyTypeChecker
         return slice(parent_start, parent_stop, slice_in.step), \
